@@ -28,7 +28,7 @@ theorem topoCheck_sound (F : FlatDesign) (l : List Nat) (hl : ∀ i, i ∈ l →
     have hwrites : ∀ j, j < F.kinds.length → F.netD.comb.writes j = [(F.kinds.getD j default).out] := by
       intro j hj
       show F.netD.writes j = _
-      unfold NetD.writes; rw [FlatDesign.combs_get j hj]; simp only [FlatDesign.out_leaf]
+      unfold NetD.writes; rw [FlatDesign.combs_get j hj]; simp only [FlatDesign.outs_leaf]
     refine ⟨?_, ?_, h3, ih (fun i hi => hl i (by simp [hi])) h4⟩
     · intro b hb w hw
       rw [hwrites b (hl b hb)]
